@@ -92,6 +92,9 @@ def run_impl_(case):
                         outs.append(None)
                     elif op[0] == "contains":
                         outs.append(op[1] in s)
+                    elif op[0] == "wset":
+                        wrapped[op[1]] = op[2]           # ANOTHER writer stores into the wrapped database while the batch is open
+                        outs.append(None)
                     else:
                         outs.append(sorted([k, v] for k, v in s.copy().items()))
                 except KeyError as e:
@@ -149,6 +152,9 @@ def spec_check(case, I):
         elif op[0] == "contains":
             a = last.get(op[1])
             exp.append((a is not None and a is not DEL) or op[1] in init)
+        elif op[0] == "wset":
+            init[op[1]] = op[2]          # the wrapped database as others left it: what read-through reads and the commit start from
+            exp.append(None)
         else:
             m = dict(init)
             for k, a in last.items():
@@ -161,7 +167,7 @@ def spec_check(case, I):
         return "leaving the batch_commit block raised " + I["exit_exc"]
     if I["outs"] != exp:
         return "reads inside the batch differ from latest-buffered-write / read-through"
-    if I["writes_open"] != 0 or I["before_exit"] != sorted([k, v] for k, v in init.items()):
+    if I["writes_open"] != sum(1 for o in case["ops"] if o[0] == "wset") or I["before_exit"] != sorted([k, v] for k, v in init.items()):
         return "wrapped database written while the batch was open"
     fin = dict(init)
     if case["exit"][0] == "commit":
@@ -255,6 +261,24 @@ def check(tier, seed):
         terms.append(coq_case(case, I))
         if len(R.samples) < 3 and nontrivial(case):
             R.samples.append(C.to_json({"case": case, "impl": obs_of(I)}))
+    # the wrapped database changes under the open batch (another writer): what a buffered action means is decided at COMMIT,
+    # from the latest action, not from what the wrapped database held when the action was buffered (Python-side oracle only)
+    fixed_ext = [{"init": {b"o": b"1"}, "ops": [("set", b"k", b"b"), ("del", b"k"), ("wset", b"k", b"W"), ("get", b"k")], "exit": ("commit", True), "ctx": "plain"},
+                 {"init": {}, "ops": [("del", b"k"), ("wset", b"k", b"W"), ("contains", b"k")], "exit": ("commit", True), "ctx": "plain"},
+                 {"init": {b"k": b"0"}, "ops": [("wset", b"k", b"W"), ("get", b"k"), ("set", b"k", b"n")], "exit": ("commit", False), "ctx": "plain"}]
+    for ei in range(len(fixed_ext) + (150 if tier == "quick" else 2000)):
+        if ei < len(fixed_ext):
+            ec = fixed_ext[ei]
+        else:
+            ec = dict(gen_case(rng), layered=False)
+            ec["ops"] = [o for o in ec["ops"] if o[0] != "copy"]
+            for _ in range(rng.randint(1, 2)):
+                ec["ops"].insert(rng.randint(0, len(ec["ops"])), ("wset", rng.choice(KEYS), rng.choice(VALS)))
+        bad = spec_check(ec, run_impl(ec))
+        R.evaluations += 1
+        R.count("wrapped_db_written_by_another_writer")
+        if bad:
+            R.spec_violations.append((bad, {"case": ec, "impl": run_impl(ec)}))
     mism, errs, nsh = C.eval_cases("C17", "cases", IMPORTS, "c17_run", CASE_T, terms, shard=500)
     R.shards, R.shards_ok = nsh, nsh - len(errs) - len({m // 500 for m in mism})
     R.coq_errors = errs
